@@ -69,6 +69,10 @@ def run(ctx, rep):
                             'over every small state of applied (node, world) pairs -- whenever some node still has an accessible world it was not applied to, '
                             'the rule offers a target; so an open finished branch is saturated for the box-type modal rules')
     common.fair_gate(ctx, rep, R8, 'C02.R8')
+    R9 = rep.rule('C02.R9', 'an open finished branch is saturated for identity: the identity rule (folded over mock branches with several worlds; = C01.R9) offers '
+                            'the substitution at a world unless its result is on the branch at that world -- else the model read off the branch need not '
+                            'respect an identity it contains')
+    common.identity_rule(ctx, rep, R9, 'C02.R9')
 
 
 def r3(ctx, rep):
